@@ -42,11 +42,13 @@ type Cfg struct {
 	Freq     int     `json:"freq"`   // Emit frequency, units
 	Ops      int     `json:"ops"`    // Throttling
 	Interval int     `json:"interval"`
-	Monoid   string  `json:"monoid"` // sum prod max min and or digits9
-	Step     string  `json:"step"`   // Unfold: succ double const
-	Seed     int     `json:"seed"`   // Unfold seed
-	Gate     bool    `json:"gate"`   // user calls block until released
-	StdErr   bool    `json:"stderr"` // attach pipe.StdErr to the error channel instead of a harness consumer
+	Monoid   string  `json:"monoid"`           // sum prod max min and or digits9
+	Step     string  `json:"step"`             // Unfold: succ double const
+	Seed     int     `json:"seed"`             // Unfold seed
+	Gate     bool    `json:"gate"`             // user calls block until released
+	Elem     string  `json:"elem"`             // element type of the channels: "" (int) | ptr | iface | box   (elem.go)
+	Twin     string  `json:"twin"`             // a second instance of the stage in the same process: "" | prelude | prelude-ctx | mirror   (elem.go)
+	StdErr   bool    `json:"stderr"`           // attach pipe.StdErr to the error channel instead of a harness consumer
 	UnitNs   int     `json:"unit_ns"`          // duration of one unit of virtual time in ns (0: DefaultUnit)
 	Dup      []int   `json:"dup,omitempty"`    // Join: indices of input channels handed to Join a second time
 	Stages   []Cfg   `json:"stages,omitempty"` // kind Pipeline: the stages, first to last (their error channels go to pipe.StdErr)
@@ -125,13 +127,15 @@ type ctl struct {
 	ctx    context.Context
 	cancel context.CancelFunc
 
-	ins     []chan int
-	newSnd  chan<- int
-	xin     *xport // input 0 when its element type is not int (folds over other carriers)
-	inline  bool // inside a burst
-	outs    map[string]func() (int, bool)
-	outLen  map[string]func() int
-	outName []string
+	ins      []chan int
+	newSnd   chan<- int
+	xins     []*xport // input i when its element type is not int (folds over other carriers, cfg.Elem)
+	twin     *ctl     // cfg.Twin: a second instance of the same stage in the same bubble (elem.go)
+	baseLive int      // library goroutines that belong to the twin
+	inline   bool     // inside a burst
+	outs     map[string]func() (int, bool)
+	outLen   map[string]func() int
+	outName  []string
 
 	// bookkeeping of the environment's pending operations
 	sendPend  []bool
@@ -204,24 +208,27 @@ type xport struct {
 	drain   func()
 }
 
-func newXport[A any](ch chan A, toA func(int) A) *xport {
-	return &xport{
+func newXport[A any](snd chan<- A, rcv <-chan A, toA func(int) A) *xport {
+	x := &xport{
 		trySend: func(v int) bool {
 			select {
-			case ch <- toA(v):
+			case snd <- toA(v):
 				return true
 			default:
 				return false
 			}
 		},
-		send:   func(v int) { ch <- toA(v) },
-		close:  func() { close(ch) },
-		length: func() int { return len(ch) },
-		drain: func() {
-			for range ch {
-			}
-		},
+		send:   func(v int) { snd <- toA(v) },
+		close:  func() { close(snd) },
+		length: func() int { return len(snd) },
 	}
+	if rcv != nil { // nil: the library owns the channel (pipe.New's send side), the harness never drains it
+		x.drain = func() {
+			for range rcv {
+			}
+		}
+	}
+	return x
 }
 
 // set is a non-comparable carrier: set union over map[int]struct{} (cfg.monoid = "orset"); the controller's int v stands
@@ -281,6 +288,23 @@ type fnset struct {
 }
 
 func (c *ctl) fns(cfg Cfg) *fnset {
+	if shared != nil {
+		// cfg.Twin = prelude-f: the stage under test is built from the very function values (pipe.Lift(f), ...) an earlier
+		// instance was built from; the harness functions behind them now report to this controller
+		k := shared.idx
+		shared.idx++
+		if fs, ok := shared.m[k].(*fnset); ok {
+			fs.c = c
+			return fs
+		}
+		fs := c.fns0(cfg)
+		shared.m[k] = fs
+		return fs
+	}
+	return c.fns0(cfg)
+}
+
+func (c *ctl) fns0(cfg Cfg) *fnset {
 	fs := &fnset{c: c, fail: map[int]bool{}, pred: map[int]bool{}, monoid: cfg.Monoid, step: cfg.Step}
 	for _, x := range cfg.Fail {
 		fs.fail[x] = true
@@ -432,23 +456,27 @@ func (c *ctl) valErr(out <-chan int, exx <-chan error) {
 }
 
 func pf[A, B any](mode string, f func(A) (B, error)) pipe.F[A, B] {
-	switch mode {
-	case "try":
-		return pipe.Try(f)
-	case "lift":
-		return pipe.Lift(f)
-	}
-	return pipe.Pure(func(a A) B { b, _ := f(a); return b })
+	return shareF(func() pipe.F[A, B] {
+		switch mode {
+		case "try":
+			return pipe.Try(f)
+		case "lift":
+			return pipe.Lift(f)
+		}
+		return pipe.Pure(func(a A) B { b, _ := f(a); return b })
+	})
 }
 
 func ff[A, B any](mode string, f func(A) (B, error)) fork.F[A, B] {
-	switch mode {
-	case "try":
-		return fork.Try(f)
-	case "lift":
-		return fork.Lift(f)
-	}
-	return fork.Pure(func(a A) B { b, _ := f(a); return b })
+	return shareF(func() fork.F[A, B] {
+		switch mode {
+		case "try":
+			return fork.Try(f)
+		case "lift":
+			return fork.Lift(f)
+		}
+		return fork.Pure(func(a A) B { b, _ := f(a); return b })
+	})
 }
 
 // build constructs the stage under test.
@@ -466,6 +494,7 @@ func (c *ctl) build() {
 		nin = 1
 	}
 	c.ins = make([]chan int, nin)
+	c.xins = make([]*xport, nin)
 	for i := range c.ins {
 		c.ins[i] = make(chan int, cfg.Cap)
 	}
@@ -480,6 +509,17 @@ func (c *ctl) build() {
 	fs := c.fns(cfg)
 	freq := time.Duration(cfg.Freq) * c.unit()
 	switch {
+	case cfg.Elem != "" && cfg.Kind != "Fold" && cfg.Kind != "Pipeline":
+		switch cfg.Elem {
+		case "ptr":
+			buildElem(c, fs, ptrCodec())
+		case "iface":
+			buildElem(c, fs, ifaceCodec())
+		case "box":
+			buildElem(c, fs, boxCodec())
+		default:
+			panic("unknown elem " + cfg.Elem)
+		}
 	case cfg.Kind == "Pipeline":
 		cur := in
 		if nin == 0 {
@@ -549,7 +589,7 @@ func (c *ctl) build() {
 		} else {
 			f = pipe.LiftF(fs.fnArrow)
 		}
-		out, exx := pipe.FMap(ctx, in, f)
+		out, exx := pipe.FMap(ctx, in, shared1(f))
 		c.valErr(out, exx)
 	case cfg.Kind == "FMap":
 		var f fork.FF[int, int]
@@ -558,7 +598,7 @@ func (c *ctl) build() {
 		} else {
 			f = fork.LiftF(fs.fnArrow)
 		}
-		out, exx := fork.FMap(ctx, cfg.Par, in, f)
+		out, exx := fork.FMap(ctx, cfg.Par, in, shared1(f))
 		c.valErr(out, exx)
 	case cfg.Kind == "Filter" && !cfg.Forked:
 		out := pipe.Filter(ctx, in, pf(cfg.Mode, fs.fnPred))
@@ -594,7 +634,7 @@ func (c *ctl) build() {
 		c.addOut("res", unitReader(d), func() int { return len(d) })
 	case cfg.Kind == "Fold" && cfg.Monoid == "sumref":
 		pin := make(chan *cell, cfg.Cap)
-		c.xin = newXport(pin, func(v int) *cell { return &cell{v} })
+		c.xins[0] = newXport(pin, pin, func(v int) *cell { return &cell{v} })
 		c.ins[0] = nil
 		var d <-chan *cell
 		if cfg.Forked {
@@ -611,7 +651,7 @@ func (c *ctl) build() {
 		}, func() int { return len(d) })
 	case cfg.Kind == "Fold" && cfg.Monoid == "orset":
 		pin := make(chan set, cfg.Cap)
-		c.xin = newXport(pin, toSet)
+		c.xins[0] = newXport(pin, pin, toSet)
 		c.ins[0] = nil
 		var d <-chan set
 		if cfg.Forked {
@@ -742,12 +782,12 @@ func (c *ctl) liveLib() int {
 }
 
 func (c *ctl) snapshot() Snap {
-	s := Snap{InLen: make([]int, len(c.ins)), OutLen: map[string]int{}, Live: c.liveLib(), Now: c.now()}
+	s := Snap{InLen: make([]int, len(c.ins)), OutLen: map[string]int{}, Live: c.liveLib() - c.baseLive, Now: c.now()}
 	for i, ch := range c.ins {
 		if ch != nil {
 			s.InLen[i] = len(ch)
-		} else if c.xin != nil {
-			s.InLen[i] = c.xin.length()
+		} else if c.xins[i] != nil {
+			s.InLen[i] = c.xins[i].length()
 		} else if c.newSnd != nil {
 			s.InLen[i] = len(c.newSnd)
 		}
@@ -816,11 +856,12 @@ func (c *ctl) issue(cmd *Cmd) {
 		cmd.V = v
 		c.sendIdx[i]++
 		c.sendPend[i] = true
+		c.mirrorSend(i, v)
 		var trySend func() bool
 		var send func()
-		if c.xin != nil {
-			trySend = func() bool { return c.xin.trySend(v) }
-			send = func() { c.xin.send(v) }
+		if x := c.xins[i]; x != nil {
+			trySend = func() bool { return x.trySend(v) }
+			send = func() { x.send(v) }
 		} else {
 			ch := c.sendCh(i)
 			trySend = func() bool {
@@ -870,8 +911,8 @@ func (c *ctl) issue(cmd *Cmd) {
 					c.emit(Ev{E: "closepanic", I: cmd.I})
 				}
 			}()
-			if c.xin != nil {
-				c.xin.close()
+			if x := c.xins[cmd.I]; x != nil {
+				x.close()
 			} else {
 				close(c.sendCh(cmd.I))
 			}
@@ -1147,8 +1188,10 @@ func (c *ctl) teardown() {
 	}
 	c.cfg.Gate = false
 	c.mu.Unlock()
-	if c.xin != nil {
-		go c.xin.drain()
+	for _, x := range c.xins {
+		if x != nil && x.drain != nil {
+			go x.drain()
+		}
 	}
 	for i := range c.ins {
 		ch := c.ins[i]
@@ -1161,9 +1204,11 @@ func (c *ctl) teardown() {
 		}()
 	}
 	synctest.Wait()
-	if c.xin != nil && !c.inClosed[0] {
-		c.xin.close()
-		c.inClosed[0] = true
+	for i, x := range c.xins {
+		if x != nil && x.drain != nil && !c.inClosed[i] {
+			x.close()
+			c.inClosed[i] = true
+		}
 	}
 	for i := range c.ins {
 		if c.ins[i] != nil && !c.inClosed[i] {
@@ -1203,6 +1248,8 @@ func Run(t *testing.T, s Sched) (tr Trace) {
 			recvPend: map[string]bool{}, seen: map[string]bool{}, gates: map[int]chan struct{}{}, callArg: map[int]int{},
 			failSet: map[int]bool{}, predSet: map[int]bool{}, start: time.Now()}
 		c.ctx, c.cancel = context.WithCancel(context.Background())
+		c.startTwin()
+		c.start = time.Now()
 		c.build()
 		tr.Outs = c.outName
 		// window 0: the stage has just been created
@@ -1222,6 +1269,9 @@ func Run(t *testing.T, s Sched) (tr Trace) {
 		}
 		c.epilogue(s.Epilogue, &tr.Wins)
 		c.teardown()
+		if c.twin != nil {
+			c.twin.teardown()
+		}
 	})
 	return tr
 }
